@@ -42,7 +42,7 @@ pub fn ref_domain(f: Family, fr: &FamRefs, level: u8, path_n: usize, path_level:
 pub fn run(ctx: &Ctx) -> Report {
 	let refs = Refs::new(&ctx.root);
 	let mut total = Report::new();
-	total.rule = "RAW: every string of <= n tokens over {a : / ? # @ 1 %41 . [ ] (é)} (+decoys in thorough) accepted by the reference URI-/IRI-reference DFA; REF: compositions scheme x AUTH x PATH x query x fragment that re-split to the chosen components; one case = one reference text through accessors, parts(), borrowed and owned, reference and non-reference type; non-trivial = distinct valid text".into();
+	total.rule = "RAW: every string of <= n tokens over {a : / ? # @ 1 %41 . [ ] (é)} (+decoys in thorough) accepted by the reference URI-/IRI-reference DFA; REF: compositions scheme x AUTH x PATH x query x fragment that re-split to the chosen components, plus compositions of components of 7..9 / 15..17 / 31..33 bytes; one case = one reference text through accessors, parts(), borrowed and owned, reference and non-reference type; non-trivial = distinct valid text".into();
 	let raw_n = ctx.pick(7usize, 8usize);
 	for f in Family::active() {
 		let fr = FamRefs::new(refs, f);
@@ -147,44 +147,108 @@ pub fn run(ctx: &Ctx) -> Report {
 			total.count("iri_delimiter_twin_valid", r.states);
 			total.merge(r);
 		}
-		// REF
-		let dom = ref_domain(f, &fr, 1, ctx.pick(2, 3), ctx.pick(0, 1));
-		let shards = 64;
-		let r = run_shards(ctx, shards, |si| {
-			let mut r = Report::new();
-			let mut vs = Vec::new();
-			for (i, (t, parts)) in dom.iter().enumerate() {
-				if i % shards != si {
-					continue;
+		// REF: the composition is streamed (never materialised); one shard per authority option.
+		// quick: AUTH(level 1) x PATH(2) over the core segments; thorough: x PATH(3) over the core
+		// segments and x PATH(2) over the level-1 segments
+		let plans: Vec<(usize, u8)> = if ctx.quick() { vec![(2, 0)] } else { vec![(3, 0), (2, 1)] };
+		for (path_n, path_level) in plans {
+			let auths: Vec<Option<Vec<u8>>> = std::iter::once(None).chain(domains::authorities(f, 1).into_iter().map(|(t, _)| Some(t))).collect();
+			let paths = domains::paths(&domains::seg_alphabet(f, path_level), path_n);
+			let (schemes, queries, fragments) = (domains::scheme_options(1), domains::query_options(f, 1), domains::fragment_options(f, 1));
+			let r = run_shards(ctx, auths.len(), |ai| {
+				let mut r = Report::new();
+				let mut vs = Vec::new();
+				let one_auth = [auths[ai].clone()];
+				for sc in &schemes {
+					let one_scheme = [sc.clone()];
+					for p in &paths {
+						let one_path = [p.clone()];
+						for (t, _parts) in domains::references(&one_scheme, &one_auth, &one_path, &queries, &fragments) {
+							if !fr.valid(Kind::RiRef, &t) {
+								continue;
+							}
+							if tokenizes(&t, &alpha).map(|k| k <= raw_n).unwrap_or(false) {
+								r.count("ref_members_already_in_raw", 1);
+								continue;
+							}
+							r.states += 1;
+							let e = by_family!(f, c02_case(&t, &fr, &mut vs));
+							r.evaluations += e;
+							r.transitions += e;
+							if r.states % 100003 == 7 {
+								r.sample(by_family!(f, text_input(&t)));
+							}
+							for v in vs.drain(..) {
+								r.violate(v);
+							}
+						}
+					}
+					if ctx.out_of_time() {
+						r.cap("wall clock reached in the REF sweep");
+						break;
+					}
 				}
-				if tokenizes(t, &alpha).map(|k| k <= raw_n).unwrap_or(false) {
-					r.count("ref_members_already_in_raw", 1);
-					continue;
-				}
-				let _ = parts;
-				r.states += 1;
-				let e = by_family!(f, c02_case(t, &fr, &mut vs));
-				r.evaluations += e;
-				r.transitions += e;
-				if i % 100003 == 7 {
-					r.sample(by_family!(f, text_input(t)));
-				}
-				for v in vs.drain(..) {
-					r.violate(v);
-				}
+				r.distinct_nontrivial = r.states;
+				r.traces = r.states;
+				r
+			});
+			total.count(&format!("{}_ref_valid_PATH({path_n})_level{path_level}", f.name()), r.states);
+			total.merge(r);
+		}
+		// components whose lengths sit on and around 8-, 16- and 32-byte blocks, in every position
+		{
+			let bl = domains::block_length_segments();
+			let o = |x: &[&str]| -> Vec<Option<Vec<u8>>> { x.iter().map(|s| Some(domains::b(s))).collect() };
+			let mut auths: Vec<Option<Vec<u8>>> = vec![None];
+			auths.extend(o(&["h"]));
+			let mut paths: Vec<Vec<u8>> = vec![Vec::new(), b"/p".to_vec()];
+			let mut queries: Vec<Option<Vec<u8>>> = vec![None];
+			queries.extend(o(&["q"]));
+			let mut fragments: Vec<Option<Vec<u8>>> = vec![None];
+			fragments.extend(o(&["f"]));
+			for x in &bl {
+				auths.push(Some(x.clone()));
+				let mut ua = x.clone();
+				ua.extend_from_slice(b"@h:8");
+				auths.push(Some(ua));
+				let mut p = b"/".to_vec();
+				p.extend_from_slice(x);
+				paths.push(p.clone());
+				p.push(b'/');
+				p.extend_from_slice(x);
+				paths.push(p);
+				queries.push(Some(x.clone()));
+				fragments.push(Some(x.clone()));
 			}
-			r.distinct_nontrivial = r.states;
-			r.traces = r.states;
-			r
-		});
-		total.count(&format!("{}_ref_valid", f.name()), r.states);
-		total.merge(r);
+			let schemes = vec![None, Some(domains::b("s"))];
+			let r = run_shards(ctx, auths.len(), |ai| {
+				let mut r = Report::new();
+				let mut vs = Vec::new();
+				for (t, _) in domains::references(&schemes, &[auths[ai].clone()], &paths, &queries, &fragments) {
+					if !fr.valid(Kind::RiRef, &t) {
+						continue;
+					}
+					r.states += 1;
+					let e = by_family!(f, c02_case(&t, &fr, &mut vs));
+					r.evaluations += e;
+					r.transitions += e;
+					for v in vs.drain(..) {
+						r.violate(v);
+					}
+				}
+				r.distinct_nontrivial = r.states;
+				r.traces = r.states;
+				r
+			});
+			total.count(&format!("{}_block_length_refs", f.name()), r.states);
+			total.merge(r);
+		}
 		if ctx.out_of_time() {
 			total.cap(format!("wall clock reached after REF sweep of {}", f.name()));
 			return total;
 		}
 	}
-	total.info.insert("bounds".into(), json!({"raw_tokens_max": raw_n, "ref_path_segments_max": ctx.pick(2, 3)}));
+	total.info.insert("bounds".into(), json!({"raw_tokens_max": raw_n, "ref_plans(path_segments_max,segment_level)": if ctx.quick() { json!([[2, 0]]) } else { json!([[3, 0], [2, 1]]) }}));
 	total.assumptions.push("reference decomposition = RFC 3986 Appendix B regular expression, cross-checked by C01's reference DFAs on every returned component".into());
 	total
 }
